@@ -69,7 +69,7 @@ class C04(Engine):
     prop = "C04"
     name = "cli-sim"
     level = "exploration"
-    expected_kinds = {"mode_explicit", "mode_dir", "mode_cwd", "listing_perm", "fatal_mid_run", "eio", "eacces", "enoent", "gitignore", "gitignore_dropped_a_file", "value_option_before_paths", "strict_stdout", "strict_stdout_undecodable_source"}
+    expected_kinds = {"mode_explicit", "mode_dir", "mode_cwd", "listing_perm", "fatal_mid_run", "eio", "eacces", "enoent", "gitignore", "gitignore_dropped_a_file", "value_option_before_paths", "strict_stdout", "strict_stdout_undecodable_source", "fd_limit", "git_arg_max"}
     rule_text = ("All class sequences of length 0..4 over {clean, notice-only, erroneous, fatal} (341) x 3 modes (explicit paths, one "
                  "directory argument, no argument/cwd), each instantiated with k seeded draws of concrete files (class membership "
                  "measured with R-alone); lengths 5..12 sampled; every sampled multiset in up to 24 orders; directory modes get their "
@@ -175,6 +175,11 @@ class C04(Engine):
             k3 = len(op["argv"]) - len(path_args(op["argv"]))
             op["argv"] = op["argv"][:k3] + ["-R", "NoSuchCompatWord"] + op["argv"][k3:]
             sc["value_option_before_paths"] = True
+        if len(fids) >= 8 and g.random() < 0.6:
+            # S10: a descriptor limit (ulimit -n) only a few above what the process has open when main() starts: a run may
+            # analyse any number of files as long as it does not hold them all open
+            op["fd_headroom"] = 6
+            sc["fd_limit"] = True
         if strict:
             # S6: standard output as it is under an ordinary UTF-8 locale: a stream that refuses what is not Unicode text
             op["stdout"] = "strict"
@@ -223,9 +228,26 @@ class C04(Engine):
                     tree["src"][f"d{j}"] = {P.files[fid]["name"]: "@" + fid}
                     paths.append((f"src/d{j}/{P.files[fid]['name']}", fid))
                 mode = "dir" if k % 2 == 0 else "explicit"
-                op = {"op": "cli", "argv": ["src"] if mode == "dir" else [p for p, _ in paths], "cwd": "."}
-                yield base + k, {"kind": "run", "mode": mode, "seq": ["…%d files" % len(seq)], "tree": tree, "selected": paths, "ops": [op]}
+                op = {"op": "cli", "argv": ["src"] if mode == "dir" else [p for p, _ in paths], "cwd": ".", "fd_headroom": 8}
+                yield base + k, {"kind": "run", "mode": mode, "seq": ["…%d files" % len(seq)], "tree": tree, "selected": paths, "fd_limit": True, "ops": [op]}
                 k += 1
+        # ... and a large selection under --use-gitignore with long paths: the peer git accepts an argument vector only up to
+        # the limit execve derives from the stack size (here 128 KiB, what `ulimit -s 512` gives)
+        for nfiles in ([400] if q else [400, 900]):
+            rng = core.derive_rng("c04.hugegit", self.seed, nfiles)
+            P = self.pools
+            long_a, long_b = "a" * 200, "b" * 180
+            tree = {"src": {long_a: {long_b: {}}}}
+            paths = []
+            seq = ["clean"] * (nfiles - 2) + ["notice", "clean"]
+            for j, c in enumerate(seq):
+                fid = small[c][j % len(small[c])]
+                tree["src"][long_a][long_b][f"d{j}"] = {P.files[fid]["name"]: "@" + fid}
+                paths.append((f"src/{long_a}/{long_b}/d{j}/{P.files[fid]['name']}", fid))
+            rules = [{"path": paths[k2][0], "neg": False, "line": n + 1} for n, k2 in enumerate(sorted(rng.sample(range(nfiles), 5)))]
+            op = {"op": "cli", "argv": ["--use-gitignore", "src"], "cwd": ".", "git": {"rules": rules, "fault": None, "arg_max": 131072}}
+            yield base + 500 + nfiles, {"kind": "run", "mode": "dir", "seq": ["…%d files" % nfiles], "tree": tree, "selected": paths,
+                                        "gitignore": True, "arg_max": True, "ops": [op]}
         n_multi = 25 if q else 400
         base = 2_000_000
         idx = base
@@ -391,6 +413,10 @@ class C04(Engine):
     def observe(self, idx, sc, r):
         o = r["ops"][0]
         self.fire("mode_" + sc["mode"])
+        if sc.get("fd_limit"):
+            self.fire("fd_limit")
+        if sc.get("arg_max"):
+            self.fire("git_arg_max")
         if sc.get("strict_stdout"):
             self.fire("strict_stdout")
             if any(self.pools.files.get(fid, {}).get("name", "").startswith("enc_") for _, fid in sc.get("selected", [])):
